@@ -25,7 +25,7 @@ type boundedSpec struct {
 }
 
 var boundedByProp = map[string][]boundedSpec{
-	"C11": {{"c11_bounded_test.go", "TestBoundedC11"}, {"c11path_bounded_test.go", "TestBoundedC11Path"}},
+	"C11": {{"c11_bounded_test.go", "TestBoundedC11"}, {"c11path_bounded_test.go", "TestBoundedC11Path"}, {"c11params_bounded_test.go", "TestBoundedC11Params"}},
 	"C14": {{"c14_bounded_test.go", "TestBoundedC14"}},
 	"C17": {{"c17_bounded_test.go", "TestBoundedC17"}},
 }
@@ -85,7 +85,11 @@ func runBounded(verif, repo string, sp boundedSpec) (string, error) {
 	}
 	defer os.RemoveAll(dir)
 	repl := map[string]string{}
-	for _, f := range []string{"common_bounded_test.go", "fakeconn_bounded_test.go", sp.File} {
+	files := []string{"common_bounded_test.go", "fakeconn_bounded_test.go", sp.File}
+	if sp.File == "c11params_bounded_test.go" {
+		files = append(files, "c11_bounded_test.go", "c11path_bounded_test.go")
+	}
+	for _, f := range files {
 		repl[filepath.Join(repo, "zz_"+f)] = filepath.Join(verif, "bounded", f)
 	}
 	ovb, _ := json.Marshal(map[string]map[string]string{"Replace": repl})
